@@ -104,7 +104,7 @@ class Gen(object):
     if self.chance('p_attach'):
       beh['attach'] = 1
     if self.chance('p_xlogs'):
-      beh['xlogs'] = [t.draw(14, 'xshape') for _ in range(1 + t.draw(3, 'nxlogs'))]
+      beh['xlogs'] = [t.draw(15, 'xshape') for _ in range(1 + t.draw(3, 'nxlogs'))]
     return beh
 
   def phase(self, in_subtest=False, in_teardown=False, role='main'):
